@@ -23,6 +23,14 @@ pub const F_R3: u128 = lexical_core::NumberFormatBuilder::from_radix(3);
 pub const F_SIGNS: u128 = lexical_core::NumberFormatBuilder::new().required_mantissa_sign(true).required_exponent_sign(true).build_unchecked();
 #[cfg(all(feature = "format", feature = "power-of-two"))]
 pub const F_CHEX: u128 = lexical_core::format::C_HEX_STRING;
+// digits optional: the empty string and a bare sign are accepted by lexical-core
+#[cfg(feature = "format")]
+pub const F_NODIG: u128 = lexical_core::NumberFormatBuilder::new().required_digits(false).build_unchecked();
+// mantissa radix below 10 with decimal exponent digits: integers are longer than their decimal size
+#[cfg(all(feature = "format", feature = "power-of-two"))]
+pub const F_OCT10: u128 = lexical_core::NumberFormatBuilder::new().mantissa_radix(8).exponent_base(std::num::NonZeroU8::new(2)).exponent_radix(std::num::NonZeroU8::new(10)).build_unchecked();
+#[cfg(all(feature = "format", feature = "power-of-two"))]
+pub const F_BIN10: u128 = lexical_core::NumberFormatBuilder::new().mantissa_radix(2).exponent_base(std::num::NonZeroU8::new(2)).exponent_radix(std::num::NonZeroU8::new(10)).build_unchecked();
 
 fn facade_formats() -> Vec<(&'static str, u128)> {
     let mut v = vec![("STANDARD", F_STD)];
@@ -34,6 +42,12 @@ fn facade_formats() -> Vec<(&'static str, u128)> {
     v.push(("SIGNS", F_SIGNS));
     #[cfg(all(feature = "format", feature = "power-of-two"))]
     v.push(("C_HEX_STRING", F_CHEX));
+    #[cfg(feature = "format")]
+    v.push(("NO_REQUIRED_DIGITS", F_NODIG));
+    #[cfg(all(feature = "format", feature = "power-of-two"))]
+    v.push(("OCT_E10", F_OCT10));
+    #[cfg(all(feature = "format", feature = "power-of-two"))]
+    v.push(("BIN_E10", F_BIN10));
     v
 }
 
@@ -44,8 +58,10 @@ where
 {
     #[allow(deprecated)]
     let core = guard(|| {
+        // the reference gets room to spare: if the documented bound were too small only the
+        // facade, which allocates exactly the bound, would fail
         let size = <T::Options as lexical_core::WriteOptions>::buffer_size::<T, F>(o);
-        let mut buf = vec![0u8; size];
+        let mut buf = vec![0u8; size.max(lexical_core::BUFFER_SIZE) + 256];
         let n = lexical_core::write_with_options::<T, F>(v, &mut buf, o).len();
         buf.truncate(n);
         buf
@@ -57,7 +73,7 @@ where
 #[derive(Clone, Debug)]
 pub struct WCase {
     pub fmt: usize,
-    /// 0 f32, 1 f64, 2 i64, 3 u8
+    /// 0 f32, 1 f64, 2 i64, 3 u8, 4 u64, 5 u128, 6 i32
     pub ty: u8,
     pub value: u128,
     pub opts: WOpts,
@@ -94,6 +110,21 @@ macro_rules! dispatch_fmt {
                 const $f: u128 = F_CHEX;
                 $body
             },
+            #[cfg(feature = "format")]
+            "NO_REQUIRED_DIGITS" => {
+                const $f: u128 = F_NODIG;
+                $body
+            },
+            #[cfg(all(feature = "format", feature = "power-of-two"))]
+            "OCT_E10" => {
+                const $f: u128 = F_OCT10;
+                $body
+            },
+            #[cfg(all(feature = "format", feature = "power-of-two"))]
+            "BIN_E10" => {
+                const $f: u128 = F_BIN10;
+                $body
+            },
             _ => unreachable!(),
         }
     }};
@@ -114,7 +145,10 @@ fn check_facade_write(c: &WCase, l: &mut Local) -> CaseResult {
             0 => wr::<f32, F>(f32::from_bits(c.value as u32), &fo),
             1 => wr::<f64, F>(f64::from_bits(c.value as u64), &fo),
             2 => wr::<i64, F>(c.value as i64, &io),
-            _ => wr::<u8, F>(c.value as u8, &io),
+            3 => wr::<u8, F>(c.value as u8, &io),
+            4 => wr::<u64, F>(c.value as u64, &io),
+            5 => wr::<u128, F>(c.value, &io),
+            _ => wr::<i32, F>(c.value as i32, &io),
         }
     });
     if name != "STANDARD" || c.opts != WOpts::default_for(&m) {
@@ -123,7 +157,7 @@ fn check_facade_write(c: &WCase, l: &mut Local) -> CaseResult {
             l.sample(wcase_json(c));
         }
     }
-    let desc = |what: String| Fail::new(format!("facade format {name} type {} value {:#x} options {}: {}", ["f32", "f64", "i64", "u8"][c.ty as usize], c.value, c.opts.to_json(), what));
+    let desc = |what: String| Fail::new(format!("facade format {name} type {} value {:#x} options {}: {}", ["f32", "f64", "i64", "u8", "u64", "u128", "i32"][(c.ty as usize).min(6)], c.value, c.opts.to_json(), what));
     match (&core, &facade) {
         (Ok(a), Ok(b)) => {
             if a != b {
@@ -346,8 +380,8 @@ macro_rules! default_writes {
 pub fn run(ctx: &Ctx, rep: &mut Report) {
     rep.rule = "cases: (a) default API: lexical::to_string vs lexical_core::write for the 12 integer types and f32/f64 over generated \
         values; (b) lexical::to_string_with_options vs lexical_core::write_with_options for the formats instantiated for the facade \
-        (STANDARD; hexadecimal; radix 3; a required-sign format; C_HEX_STRING - as far as the build features allow) x {f32, f64, i64, \
-        u8} x generated valid write options (digits, breaks, trim, round mode, punctuation incl. tab/space/~, special strings): bytes \
+        (STANDARD; hexadecimal; radix 3; a required-sign format; C_HEX_STRING; a digits-optional format; octal and binary \
+        mantissas with decimal exponent digits - as far as the build features allow) x {f32, f64, i64, u8, u64, u128, i32} x generated valid write options (digits, breaks, trim, round mode, punctuation incl. tab/space/~, special strings): bytes \
         equal, panic iff panic, String is valid UTF-8; (c) lexical::parse / parse_partial / parse_with_options / \
         parse_partial_with_options vs lexical_core on generated texts (numbers, mutations, raw bytes) for {f32, f64, i64, u8, u128, \
         i16}; (d) every compiled catalogue writer x generated values x valid options: every emitted byte is < 0x80; (e) the same for \
@@ -374,14 +408,17 @@ pub fn run(ctx: &Ctx, rep: &mut Report) {
         "facade:to_string_with_options",
         ctx.n(600_000, 60_000_000),
         move || {
-            (0..nf, 0u8..4, any::<u16>())
+            (0..nf, 0u8..7, any::<u16>())
                 .prop_flat_map(move |(fmt, ty, _)| {
                     let m = FormatModel::decode(facade_formats()[fmt].1);
                     let value: BoxedStrategy<u128> = match ty {
                         0 => prop_oneof![10 => gen::finite_bits(vcore::flt::F32), 1 => Just(0x7f800000u64), 1 => Just(0x7fc00001u64), 1 => Just(0xff800000u64)].prop_map(|b| b as u128).boxed(),
                         1 => prop_oneof![10 => gen::finite_bits(vcore::flt::F64), 1 => Just(0x7ff0000000000000u64), 1 => Just(0x7ff8000000000001u64), 1 => Just(0xfff0000000000000u64)].prop_map(|b| b as u128).boxed(),
                         2 => gen::int_value(64, true, m.mantissa_radix()),
-                        _ => gen::int_value(8, false, m.mantissa_radix()),
+                        3 => gen::int_value(8, false, m.mantissa_radix()),
+                        4 => gen::int_value(64, false, m.mantissa_radix()),
+                        5 => gen::int_value(128, false, m.mantissa_radix()),
+                        _ => gen::int_value(32, true, m.mantissa_radix()),
                     };
                     (value, wopts::strategy(&m, false)).prop_map(move |(value, opts)| WCase { fmt, ty, value, opts })
                 })
@@ -414,6 +451,9 @@ pub fn run(ctx: &Ctx, rep: &mut Report) {
                         };
                         gen::int_value(bits, signed, rx.mant).prop_map(move |v| gen::ref_numeral(v, bits, signed, rx.mant, false)).boxed()
                     };
+                    // degenerate inputs: empty, bare sign / point / exponent (accepted by digits-optional formats)
+                    let degenerate = prop_oneof![Just(b"".to_vec()), Just(b"+".to_vec()), Just(b"-".to_vec()), Just(b".".to_vec()), Just(vec![ec]), Just(b"+.".to_vec()), Just(vec![b'.', ec, b'1']), Just(vec![b'-', ec])];
+                    let base = prop_oneof![12 => base, 1 => degenerate];
                     (base, proptest::collection::vec((any::<u16>(), any::<u8>()), 0..3), prop_oneof![3 => Just(None), 1 => any::<u8>().prop_map(Some)]).prop_map(move |(mut t, muts, tail)| {
                         if t.len() > 400 {
                             t.truncate(400);
